@@ -11,9 +11,18 @@
 
 extern crate arc_swap;
 
+#[cfg(not(feature = "verif-hooks"))]
 use arc_swap::{ArcSwap, Guard};
 use std::ops::Deref;
+#[cfg(not(feature = "verif-hooks"))]
 use std::sync::{Arc, LockResult, Mutex, MutexGuard, PoisonError};
+
+#[cfg(feature = "verif-hooks")]
+use crate::verif_hooks::{ArcSwap, Mutex, MutexGuard};
+#[cfg(feature = "verif-hooks")]
+use arc_swap::Guard;
+#[cfg(feature = "verif-hooks")]
+use std::sync::{Arc, LockResult, PoisonError};
 
 use crate::{GuestAddressSpace, GuestMemory};
 
